@@ -121,7 +121,7 @@ from csverif import tables
 from csverif.absint import SymPoly
 from csverif.astutil import assignments_to, bind_args, compare_parts, const_eval, dotted, fn_calls, is_none, module_env, NotConst, params, src, statements, strip_cast
 from csverif.cursor import CursorWalk
-from csverif.q import FuncView, dominating_conditions
+from csverif.q import FuncView, dominating_conditions, reaching_defs
 
 # The checker's own description of the format of a table value.  It is applied only to the string constants of the two
 # version tables (data of the analysed module, device 6: complete table check) - never to judge the analysed regex, whose
@@ -2733,11 +2733,16 @@ def _accumulator(cn, name):
     return init[0], parts
 
 
+def _whole_table(tab):
+    """Is the canonical expression the complete section table: one SECTION parse per iteration, nothing filtered?"""
+    return isinstance(tab, (ast.ListComp, ast.GeneratorExp)) and len(tab.generators) == 1 and not tab.generators[0].ifs and _u(tab.elt) == "SECTION"
+
+
 def _sum_atom(cn, it, var, elt, sums):
     tab = cn.canon(it, full=True)
     ep = cn.poly(elt, extra={var: _nm(_SEC)})
     name = f"SUM[{_u(tab)}]({ep!r})"
-    whole = isinstance(tab, (ast.ListComp, ast.GeneratorExp)) and len(tab.generators) == 1 and not tab.generators[0].ifs and _u(tab.elt) == "SECTION"
+    whole = _whole_table(tab)
     if not any(isinstance(n, ast.Name) and n.id == "SECTION" for n in ast.walk(tab)):
         whole = None  # not recognised as (a part of) the parsed section table
     sums[name] = (whole, ep)
@@ -2781,6 +2786,295 @@ def _expand_sums(cn, poly):
     return p2, sums
 
 
+# ---- the end of the image when the position is computed differently on different paths
+_NSEC = "NSEC"  # the number of entries of the section table (FILE.NumberOfSections, the length of the parsed table)
+
+
+class _CountNorm(ast.NodeTransformer):
+    """Names the size of the section table in a canonical test: `len(<whole table>)`, `FILE.NumberOfSections` and the
+    whole table itself (a list in a truth test stands for its length, lemma L11) become NSEC."""
+
+    def visit_Call(self, node):
+        if dotted(node.func) == "len" and len(node.args) == 1 and not node.keywords and _whole_table(node.args[0]):
+            return _nm(_NSEC)
+        return self.generic_visit(node)
+
+    def visit_Attribute(self, node):
+        if _u(node) == "FILE.NumberOfSections":
+            return _nm(_NSEC)
+        return self.generic_visit(node)
+
+    def visit_ListComp(self, node):
+        return _nm(_NSEC) if _whole_table(node) else node
+
+
+def _count_guard(cn, facts):
+    """What the (test, polarity) facts say about the number of section table entries (lemma L11): "free" - no fact
+    mentions the table; "nonempty" - every fact on it is equivalent to NSEC != 0; "empty" - every fact on it is
+    equivalent to NSEC == 0; None - some fact on the table / its entries is of no recognised form (a particular count, a
+    test on an entry ...) or the facts contradict each other."""
+    A = SymPoly.atom(_NSEC)
+    seen = set()
+    for test, pol0 in facts:
+        for leaf, pol in _flatten(test, pol0):
+            c = _CountNorm().visit(cn.canon(leaf, full=True))
+            if isinstance(c, ast.Call) and dotted(c.func) == "bool" and len(c.args) == 1 and not c.keywords:
+                c = c.args[0]
+            if not any(isinstance(n, ast.Name) and n.id in (_NSEC, "SECTION", _SEC) for n in ast.walk(c)):
+                continue
+            if isinstance(c, ast.Name) and c.id == _NSEC:
+                seen.add("nonempty" if pol else "empty")
+                continue
+            if not isinstance(c, ast.Compare):
+                return None
+            parts = compare_parts(c, mirrored=False)
+            if len(parts) != 1:
+                return None
+            l, op, r = parts[0]
+            lp, rp = _poly(l), _poly(r)
+            if isinstance(op, (ast.Lt, ast.LtE, ast.Gt, ast.GtE)):
+                p = _rel(lp, op, rp, pol)
+                if p is not None and (p - A).const_value() == -1:  # NSEC - 1 >= 0
+                    seen.add("nonempty")
+                elif p is not None and (p + A).const_value() == 0:  # -NSEC >= 0 for an unsigned count
+                    seen.add("empty")
+                else:
+                    return None
+            elif isinstance(op, (ast.Eq, ast.NotEq)):
+                d = lp - rp
+                if (d - A).const_value() == 0 or (d + A).const_value() == 0:  # NSEC == 0 / NSEC != 0
+                    seen.add("empty" if isinstance(op, ast.Eq) == pol else "nonempty")
+                else:
+                    return None
+            else:
+                return None
+    if not seen:
+        return "free"
+    return seen.pop() if len(seen) == 1 else None
+
+
+def _split_choice(e, budget=8):
+    """The alternatives of a value built from conditional expressions (at the top or under + / -):
+    [(value without the choice, [(test, polarity)])]; a single pair when there is no choice."""
+    if isinstance(e, ast.IfExp):
+        out = [(v, [(e.test, True)] + fs) for v, fs in _split_choice(e.body, budget)] + [(v, [(e.test, False)] + fs) for v, fs in _split_choice(e.orelse, budget)]
+        return out if len(out) <= budget else [(e, [])]
+    if isinstance(e, ast.BinOp) and isinstance(e.op, (ast.Add, ast.Sub)):
+        ls, rs = _split_choice(e.left, budget), _split_choice(e.right, budget)
+        if len(ls) * len(rs) > 1 and len(ls) * len(rs) <= budget:
+            return [(ast.BinOp(left=l, op=e.op, right=r), lf + rf) for l, lf in ls for r, rf in rs]
+    return [(e, [])]
+
+
+def _loop_last(cn, st):
+    """A plain assignment directly in the body of `for x in T` without break/continue/return: the definition that leaves
+    the loop is the one computed for the last element, x == T[-1]."""
+    loop = FuncView.of(cn.fn).parent.get(id(st))
+    if isinstance(loop, ast.For) and isinstance(loop.target, ast.Name) and any(st is b for b in loop.body) and not loop.orelse \
+            and not any(isinstance(n, (ast.Break, ast.Continue, ast.Return)) for n in ast.walk(loop)):
+        return {loop.target.id: ast.Subscript(value=copy.deepcopy(loop.iter), slice=ast.Constant(value=-1), ctx=ast.Load())}
+    return None
+
+
+def _path_facts(ctx, f, cn, name, st, at):
+    """(test, polarity) of every `if` (outside loops) whose one branch edge lies on *all* CFG paths that carry the
+    definition `st` of the local to `at` without passing another definition of it (device 2: graph paths) - e.g. the
+    false edge of the `if` that guards an overriding definition."""
+    cfg = ctx.cfg(f)
+    fv = FuncView.of(cn.fn)
+    ust = fv.stmt_of(at)
+    if ust is None or not cfg.has(ust) or not cfg.has(st):
+        return []
+    src_n, use = cfg.node(st), cfg.node(ust)
+    others = []
+    for d, _v in assignments_to(cn.fn, name):
+        s = d if isinstance(d, ast.stmt) else fv.stmt_of(d)
+        if s is not None and s is not st and cfg.has(s):
+            others.append(cfg.edge_node(s, "iter") if isinstance(s, (ast.For, ast.AsyncFor)) else cfg.node(s))
+    out = []
+    for s in statements(cn.fn):
+        if not isinstance(s, ast.If) or not cfg.has(s) or cfg.reaches(cfg.node(s), cfg.node(s)):
+            continue
+        t, fl = cfg.edge_node(s, "true"), cfg.edge_node(s, "false")
+        if t is None or fl is None or src_n in (t, fl) or use in (t, fl):
+            continue
+        if not cfg.reaches(src_n, use, avoiding=others + [fl]):
+            out.append((s.test, False))
+        elif not cfg.reaches(src_n, use, avoiding=others + [t]):
+            out.append((s.test, True))
+    return out
+
+
+def _local_terms(ctx, f, cn, name, at, depth=0):
+    """Path-wise value of a local with several definitions (device 3, reaching definitions): one
+    (polynomial, (test, polarity) facts dominating the definitions, [definition statements]) per definition that
+    reaches `at`; `name += E` / `name = name + E` outside a loop continues with the definitions that reach it.  None when
+    a reaching definition is of another kind (parameter, unpacking, inside a loop it accumulates in ...)."""
+    if depth > 4:
+        return None
+    fn, cfg = cn.fn, ctx.cfg(f)
+
+    def mentions(e):
+        return any(isinstance(x, ast.Name) and x.id == name for x in ast.walk(e))
+
+    out = []
+    for st, v in reaching_defs(ctx, f, name, at):
+        if st is fn or not isinstance(st, (ast.Assign, ast.AnnAssign, ast.AugAssign)) or not cfg.has(st):
+            return None
+        facts = _dom_facts(ctx, f, st) + _path_facts(ctx, f, cn, name, st, at)
+        add = None
+        if isinstance(st, ast.AugAssign):
+            if not isinstance(st.op, ast.Add) or not isinstance(st.target, ast.Name):
+                return None
+            add = st.value
+        elif v is None:
+            return None
+        elif isinstance(v, ast.BinOp) and isinstance(v.op, ast.Add) and isinstance(v.left, ast.Name) and v.left.id == name:
+            add = v.right
+        if add is not None:
+            n = cfg.node(st)
+            if mentions(add) or cfg.reaches(n, n):
+                return None
+            prev = _local_terms(ctx, f, cn, name, st, depth + 1)
+            if not prev:
+                return None
+            ap = cn.poly(add)
+            out.extend((p + ap, fs + facts, ch + [st]) for p, fs, ch in prev)
+        elif mentions(v):
+            return None
+        else:
+            out.append((cn.poly(v, extra=_loop_last(cn, st)), facts, [st]))
+    return out if out and len(out) <= 8 else None
+
+
+def _end_alternatives(ctx, f, cn, pos, at):
+    """The append position as one polynomial per way it is computed: a local of the position that has several definitions
+    contributes one alternative per reaching definition, a conditional expression one per branch (both with the facts
+    under which the alternative is the value).  -> [(poly, sums, facts, local | None, definition chain)]; a single
+    alternative without facts when the position is computed in one way."""
+    fn = cn.fn
+    done, todo, steps = [], [(pos, [], None, [])], 0
+    while todo:
+        steps += 1
+        if steps > 32 or len(todo) + len(done) > 8:
+            return None
+        p, facts, local, chain = todo.pop()
+        p, sums = _expand_sums(cn, p)
+        pick = None
+        for a in sorted(p.atoms()):
+            if a.isidentifier():
+                if local is None and a not in cn.pars and a != "MZ" and len(assignments_to(fn, a)) > 1 and _accumulator(cn, a) is None:
+                    terms = _local_terms(ctx, f, cn, a, at)
+                    if terms is not None:
+                        pick = ("local", a, terms)
+                        break
+            elif not a.startswith("SUM["):
+                try:
+                    e = ast.parse(a, mode="eval").body
+                except SyntaxError:
+                    continue
+                ch = _split_choice(e)
+                if len(ch) > 1:
+                    pick = ("choice", a, ch)
+                    break
+        if pick is None:
+            done.append((p, sums, facts, local, chain))
+        elif pick[0] == "choice":
+            for val, fs in pick[2]:
+                todo.append((_sub(p, {pick[1]: _poly(cn.canon(val))}), facts + fs, local, chain))
+        else:
+            for tp, tf, tch in pick[2]:
+                todo.append((_sub(p, {pick[1]: tp}), facts + tf, pick[1], tch))
+    return done
+
+
+def _entry_selection(cn, poly):
+    """Does the polynomial read the section table only through entries selected by a constant index (`T[k].field`, T the
+    whole table) - no aggregate over the table, nothing unresolved?  -> sorted [(k, field)] (not empty) or None."""
+    sel = set()
+    for a in poly.atoms():
+        if a.isidentifier():
+            if a in cn.pars or a == "MZ" or not assignments_to(cn.fn, a):
+                continue
+            return None
+        if a.startswith("SUM["):
+            return None
+        try:
+            c = cn.canon(ast.parse(a, mode="eval").body, full=True)
+        except SyntaxError:
+            return None
+        if not any(isinstance(n, ast.Name) and n.id in ("SECTION", _SEC) for n in ast.walk(c)):
+            if cn.unlocated_parse(a):
+                return None
+            continue
+        k = _c(c.value.slice) if isinstance(c, ast.Attribute) and isinstance(c.value, ast.Subscript) and not isinstance(c.value.slice, ast.Slice) else None
+        if type(k) is int and _whole_table(c.value.value):
+            sel.add((k, c.attr))
+        else:
+            return None
+    return sorted(sel) or None
+
+
+def _table_reads_recognised(cn, poly):
+    """Every atom that reads the section table is a summarised sum over it or a constant-index entry field (so the value
+    is understood, not e.g. a max(..) / a helper call over the table)."""
+    for a in poly.atoms():
+        if a.isidentifier() or a.startswith("SUM["):
+            continue
+        try:
+            c = cn.canon(ast.parse(a, mode="eval").body, full=True)
+        except SyntaxError:
+            return False
+        if any(isinstance(n, ast.Name) and n.id in ("SECTION", _SEC) for n in ast.walk(c)) and _entry_selection(cn, SymPoly.atom(a)) is None:
+            return False
+    return True
+
+
+def _kills_free(ctx, f, cn, local, chain):
+    """No other definition of the local that can follow the chain depends on the section table: whether the chain's value
+    survives to the use is then independent of the table."""
+    cfg = ctx.cfg(f)
+    fv = FuncView.of(cn.fn)
+    last = cfg.node(chain[-1])
+    for st, _v in assignments_to(cn.fn, local):
+        s = st if isinstance(st, ast.stmt) else fv.stmt_of(st)
+        if s is None or not cfg.has(s) or any(s is c for c in chain):
+            continue
+        if cfg.reaches(last, cfg.node(s)) and _count_guard(cn, _dom_facts(ctx, f, s)) != "free":
+            return False
+    return True
+
+
+def _judge_end(ctx, f, cn, alt, branching):
+    """-> (verdict "ok" | "violated" | "undecided", detail) for one way the append position is computed."""
+    pos, sums, facts, local, chain = alt
+    MZ, H = SymPoly.atom("MZ"), SymPoly.atom("OPT.SizeOfHeaders")
+    req = "required MZ + OPT.SizeOfHeaders + sum(SizeOfRawData over the section table)"
+    locs = sorted(a for a in pos.atoms() if a.isidentifier() and a not in cn.pars and a != "MZ" and assignments_to(cn.fn, a))
+    good = [a for a, (whole, ep) in sums.items() if whole and ep == SymPoly.atom(f"{_SEC}.SizeOfRawData")]
+    want = MZ + H + (SymPoly.atom(good[0]) if good else SymPoly.atom("SUM[section table](SEC.SizeOfRawData)"))
+    unknown_tab = [a for a, (whole, _ep) in sums.items() if whole is None and a in pos.atoms()]
+    locs += sorted(a for a in pos.atoms() if not a.isidentifier() and not a.startswith("SUM[") and cn.unlocated_parse(a))
+    if pos == want:
+        return "ok", f"append read at {pos}; {req}"
+    guard = _count_guard(cn, facts) if facts else "free"
+    if guard == "empty" and _sub(pos, {a: SymPoly() for a, (whole, _ep) in sums.items() if whole}) == MZ + H:
+        return "ok", f"append read at {pos} when the section table is empty (the image ends after its headers)"
+    if locs or unknown_tab:
+        return "undecided", f"append read at {pos}: cannot identify how the locals {locs} are computed / the iterable summed over is not recognised as the section table"
+    if not branching:
+        return "violated", f"append read at {pos}; {req}"
+    sel = _entry_selection(cn, pos)
+    free = local is None or _kills_free(ctx, f, cn, local, chain)
+    if sel and guard in ("free", "nonempty") and free:
+        ents = ", ".join(f"entry [{k}].{fld}" for k, fld in sel)
+        return "violated", (f"with a non-empty section table the append read can be at {pos}: the end of the image is taken from {ents} only, the raw data of the other "
+                            f"entries does not enter (the table is not ordered by file position and an entry without raw data has PointerToRawData 0); {req}")
+    if guard == "nonempty" and free and _table_reads_recognised(cn, pos):
+        return "violated", f"with a non-empty section table the append read can be at {pos}; {req}"
+    return "undecided", f"append read at {pos} on one of several ways the position is computed; the conditions under which this way is taken are not of a recognised form"
+
+
 def r6(ctx):
     f = ctx.repo.func("pe.find_stage_prepend_append")
     v = _view(ctx, f)
@@ -2808,22 +3102,29 @@ def r6(ctx):
         else:
             ok = s.cpos == SymPoly() and ln == MZ and guard is True
             ctx.ob("R6", "CURSOR", f, t_pre, ok, f"prepend: {ln} bytes read at {s.cpos} (required: MZ bytes at 0), only when the image does not start the file: {guard is True}", s.node)
-    # ---- append: read at image base + SizeOfHeaders + sum of SizeOfRawData over the section table
+    # ---- append: read at image base + SizeOfHeaders + sum of SizeOfRawData over the section table - on every way the
+    # position is computed (reaching definitions of its locals, branches of conditional expressions)
     if not v.has_mz or len(app) != 1:
         ctx.undecided("R6", "CURSOR", f, t_app, f"{len(app)} stream reads flow into the second element of the returned pair / image base not identified")
     elif app[0].cpos is None:
         _untracked(ctx, "R6", f, t_app, v, app[0], "append read")
     else:
-        pos, sums = _expand_sums(cn, app[0].cpos)
-        locs = sorted(a for a in pos.atoms() if a.isidentifier() and a not in cn.pars and a != "MZ" and assignments_to(cn.fn, a))
-        good = [a for a, (whole, ep) in sums.items() if whole and ep == SymPoly.atom(f"{_SEC}.SizeOfRawData")]
-        want = MZ + SymPoly.atom("OPT.SizeOfHeaders") + (SymPoly.atom(good[0]) if good else SymPoly.atom("SUM[section table](SEC.SizeOfRawData)"))
-        unknown_tab = [a for a, (whole, _ep) in sums.items() if whole is None and a in pos.atoms()]
-        locs += sorted(a for a in pos.atoms() if not a.isidentifier() and not a.startswith("SUM[") and cn.unlocated_parse(a))
-        if (locs or unknown_tab) and pos != want:
-            ctx.undecided("R6", "CURSOR", f, t_app, f"append read at {pos}: cannot identify how the locals {locs} are computed / the iterable summed over is not recognised as the section table", app[0].node)
+        before = v.sites[: next(i for i, s in enumerate(v.sites) if s is app[0])]
+        at = next((s.node for s in reversed(before) if s.kind == "seek"), app[0].node)
+        alts = _end_alternatives(ctx, f, cn, app[0].cpos, at)
+        if not alts:
+            pos, sums = _expand_sums(cn, app[0].cpos)
+            alts = [(pos, sums, [], None, [])]
+        branching = len(alts) > 1 or bool(alts[0][2])
+        res = [_judge_end(ctx, f, cn, alt, branching) for alt in alts]
+        bad = [d for k, d in res if k == "violated"]
+        und = [d for k, d in res if k == "undecided"]
+        if bad:
+            ctx.ob("R6", "CURSOR", f, t_app, False, "; ".join(bad[:2]), app[0].node)
+        elif und:
+            ctx.undecided("R6", "CURSOR", f, t_app, und[0], app[0].node)
         else:
-            ctx.ob("R6", "CURSOR", f, t_app, pos == want, f"append read at {pos}; required MZ + OPT.SizeOfHeaders + sum(SizeOfRawData over the section table)", app[0].node)
+            ctx.ob("R6", "CURSOR", f, t_app, True, "; ".join(d for _k, d in res[:3]), app[0].node)
     _r6_magic_mz(ctx)
 
 
